@@ -176,6 +176,15 @@ func (r *Replay) PendingSummary() string {
 	return sb.String()
 }
 
+// PendingChunks is the number of pending chunk writes over all files.
+func (r *Replay) PendingChunks() int {
+	n := 0
+	for _, f := range r.files {
+		n += len(f.pend)
+	}
+	return n
+}
+
 // NothingPending reports whether the volatile and durable views coincide.
 func (r *Replay) NothingPending() bool {
 	if len(r.dirPend) > 0 {
@@ -268,6 +277,29 @@ func (v *fileVar) build(lenChoice int, sel []int) []byte {
 			buf = nb
 		}
 		copy(buf[w.idx*8:], w.val[:w.n])
+	}
+	return buf
+}
+
+// buildClipped is the image of a growing file whose length reached only L (durable length < L < latest
+// length): below the durable length every pending chunk has landed; of the pending chunks in the grown
+// part either all that lie wholly below L (withData) or none (a hole of zeros).
+func (v *fileVar) buildClipped(L int, withData bool) []byte {
+	buf := make([]byte, L)
+	copy(buf, v.f.dur)
+	for i := range v.chunks {
+		if len(v.options[i]) == 0 {
+			continue
+		}
+		w := v.options[i][len(v.options[i])-1]
+		lo, end := int(w.idx*8), int(w.idx*8)+w.n
+		if end > L {
+			continue
+		}
+		if lo >= len(v.f.dur) && !withData {
+			continue
+		}
+		copy(buf[lo:], w.val[:w.n])
 	}
 	return buf
 }
@@ -366,6 +398,58 @@ func (r *Replay) Enumerate(cap int, fn func(st *State, info ImageInfo) bool) (co
 		chunkSel := make([][]int, len(vars))
 		for i, v := range vars {
 			chunkSel[i] = make([]int, len(v.chunks))
+		}
+		// family "the file grew only up to L": for every file with a pending growth, every length that is a
+		// multiple of the 8-byte chunk strictly between the durable and the latest length (at most 96 of
+		// them, evenly spread beyond that), with and without the data of the grown part; everything else landed.
+		lengthFamily := func() bool {
+			for gi, g := range vars {
+				if len(g.lens) < 2 || g.lens[1] <= g.lens[0] {
+					continue
+				}
+				lo, hi := (g.lens[0]/8+1)*8, g.lens[1]
+				n := 0
+				for L := lo; L < hi; L += 8 {
+					n++
+				}
+				stride := 1
+				if n > 96 {
+					stride = (n + 95) / 96
+				}
+				k := 0
+				for L := lo; L < hi; L += 8 {
+					k++
+					if (k-1)%stride != 0 {
+						continue
+					}
+					for _, withData := range []bool{true, false} {
+						st := NewState()
+						for i, v := range vars {
+							if i == gi {
+								st.Files[v.name] = g.buildClipped(L, withData)
+								continue
+							}
+							sel := make([]int, len(v.chunks))
+							for j := range sel {
+								sel[j] = len(v.options[j])
+							}
+							st.Files[v.name] = v.build(len(v.lens)-1, sel)
+						}
+						st.Meta = r.meta
+						for k, v := range r.stable {
+							st.Stable[k] = v
+						}
+						count++
+						if !fn(st, ImageInfo{Dropped: dirDropped + 1, Landed: len(r.dirPend) - dirDropped, Desc: fmt.Sprintf("dirmask=%b %s:grown to %d of %d->%d,data=%v", mask, g.name, L, g.lens[0], g.lens[1], withData)}) {
+							return false
+						}
+					}
+				}
+			}
+			return true
+		}
+		if !lengthFamily() {
+			return count, exhaustive
 		}
 		if total <= float64(cap) {
 			// full mixed-radix enumeration
@@ -629,6 +713,117 @@ func RunVariants(r *Replay, ops []Op) (models []*Replay, labels []string) {
 		labels = append(labels, "run:gone="+strings.Join(gone, ","))
 	}
 	return
+}
+
+// bigVars builds the per-file variables with every pending directory operation landed and names the file
+// with the most pending chunks.
+func (r *Replay) bigVars() (vars []fileVar, big int, order []int) {
+	mask := uint64(0)
+	for i := 0; i < len(r.dirPend) && i < 64; i++ {
+		mask |= 1 << uint(i)
+	}
+	dm := applyDirOps(r.dirDur, r.dirPend, mask)
+	names := make([]string, 0, len(dm))
+	for n := range dm {
+		names = append(names, n)
+	}
+	sort.Strings(names)
+	big = -1
+	for _, n := range names {
+		f := r.files[dm[n]]
+		if f == nil {
+			f = &pfile{}
+		}
+		v := buildFileVar(n, f)
+		vars = append(vars, v)
+		if big < 0 || len(v.chunks) > len(vars[big].chunks) {
+			big = len(vars) - 1
+		}
+	}
+	if big < 0 || len(vars[big].chunks) == 0 {
+		return nil, -1, nil
+	}
+	n := len(vars[big].chunks)
+	order = make([]int, n)
+	for i := range order {
+		order[i] = i
+	}
+	sort.Slice(order, func(a, b int) bool { return vars[big].chunks[order[a]] < vars[big].chunks[order[b]] })
+	return
+}
+
+// EnumerateRanges calls fn for images of a large pending write: every pending directory operation and length
+// change has landed, other files have everything landed, and of the file with the most pending chunks (taken
+// in file order, n of them) the chunks in [a,b) are missing (missing=true) or are the only ones that landed
+// (missing=false), for every pair a<b with a, b multiples of unit (b = n allowed). unit <= 0 means one range
+// per single chunk at stride -unit. This is the family "the pages of a large write reach the disk out of order".
+func (r *Replay) EnumerateRanges(unit int, fn func(st *State, info ImageInfo) bool) (count int) {
+	vars, big, order := r.bigVars()
+	if big < 0 {
+		return 0
+	}
+	n := len(order)
+	emit := func(a, b int, missing bool) bool {
+		st := NewState()
+		landed := 0
+		for i, v := range vars {
+			sel := make([]int, len(v.chunks))
+			for j := range sel {
+				sel[j] = len(v.options[j])
+			}
+			if i == big {
+				for k := 0; k < n; k++ {
+					in := k >= a && k < b
+					if in == missing {
+						sel[order[k]] = 0
+					} else {
+						landed++
+					}
+				}
+			}
+			st.Files[v.name] = v.build(len(v.lens)-1, sel)
+		}
+		st.Meta = r.meta
+		for k, v := range r.stable {
+			st.Stable[k] = v
+		}
+		count++
+		what := "missing"
+		if !missing {
+			what = "the only ones landed"
+		}
+		return fn(st, ImageInfo{Dropped: n - landed, Landed: landed, Desc: fmt.Sprintf("range: pending chunks [%d,%d) of %d of %s %s", a, b, n, vars[big].name, what)})
+	}
+	if unit <= 0 {
+		stride := -unit
+		if stride < 1 {
+			stride = 1
+		}
+		for a := 0; a < n; a += stride {
+			if !emit(a, a+1, true) {
+				return count
+			}
+		}
+		return count
+	}
+	var cuts []int
+	for a := 0; a < n; a += unit {
+		cuts = append(cuts, a)
+	}
+	cuts = append(cuts, n)
+	for i := 0; i < len(cuts); i++ {
+		for j := i + 1; j < len(cuts); j++ {
+			if i == 0 && j == len(cuts)-1 {
+				continue // everything / nothing: part of the prefix family
+			}
+			for _, missing := range []bool{true, false} {
+				if !emit(cuts[i], cuts[j], missing) {
+					return count
+				}
+			}
+		}
+	}
+	return count
 }
 
 // EnumeratePrefixes calls fn for the images in which every pending directory operation and every pending
